@@ -104,6 +104,24 @@ def f(a='@@CAN12@@', b: '@@CAN13@@' = None, *args: 'List[@@CAN14@@]', **kw) -> '
 @deprecated(Version('@@CAN33@@', 1, 2, 3), replacement='@@CAN34@@')
 def old():
     """Old @@CAN40@@."""
+@deprecated(Version('canpkg', 1, 2, 3), replacement='x\\r\\r.. raw:: html\\r\\r   @@CAN60@@\\r\\ry')
+def old_cr():
+    pass
+@deprecated(Version('canpkg', 1, 2, 3), replacement='x\\x1c\\x1c.. raw:: html\\x1c\\x1c   @@CAN61@@\\x1c\\x1cy')
+def old_fs():
+    pass
+@deprecated(Version('canpkg', 1, 2, 3), replacement='x\\x85\\x85.. raw:: html\\x85\\x85   @@CAN62@@\\x85\\x85y')
+def old_nel():
+    pass
+@deprecated(Version('canpkg', 1, 2, 3), replacement='x\\u2028\\u2028.. raw:: html\\u2028\\u2028   @@CAN63@@\\u2028\\u2028y')
+def old_ls():
+    pass
+@deprecated(Version('canpkg', 1, 2, 3), replacement='x\\n\\n.. raw:: html\\n\\n   @@CAN64@@\\n\\ny')
+def old_lf():
+    pass
+@deprecated(Version('canpkg', 1, 2, 3), replacement='x\\x0c\\x0c.. raw:: html\\x0c\\x0c   @@CAN65@@\\x0b\\x0by`_ `a <javascript:x>`_ |sub| [1]_')
+def old_ff():
+    pass
 class Base:
     pass
 class C(Base['@@CAN24@@'], metaclass=type):
